@@ -71,6 +71,7 @@ Definition accepted (c : cfg) (sch : schema) (rec : list string) : bool :=
   (max_idx (srcCols c) <? List.length rec)%nat &&
   convertible (colTypes c) (srcCols c) rec &&
   Nat.eqb (List.length (eff_cols sch (dstCols c))) (List.length (srcCols c)) &&
+  cols_ok (map fd_name sch) (eff_cols sch (dstCols c)) [] &&    (* destination columns exist, each once *)
   row_fits sch (convert c sch rec) &&
   (enc_size sch (convert c sch rec) <=? maxValueSize).
 
@@ -117,7 +118,7 @@ Record ccase := mkCase { c_schema : schema; c_imports : list icase }.
 Definition err_eqb (a b : err_class) : bool :=
   match a, b with
   | ErrMalformed, ErrMalformed | ErrColCount, ErrColCount | ErrType, ErrType
-  | ErrIntRange, ErrIntRange | ErrTooLarge, ErrTooLarge => true
+  | ErrIntRange, ErrIntRange | ErrTooLarge, ErrTooLarge | ErrColumns, ErrColumns => true
   | _, _ => false
   end.
 
